@@ -222,6 +222,7 @@ def run_history(ops, nservers):
                     live[(cm, peer, inv)]["eligible"].add(b"R" + old_token)
                 if lingering:
                     live[(cm, peer, inv)]["eligible_kinds"].add("abort")
+            live[(cm, peer, inv)]["earlier_tokens"] = list(used_tokens.get((peer, cm, inv), []))
             used_tokens.setdefault((peer, cm, inv), []).append(token)
             submitted.append(dict(client=cm, peer=peer, invoke=inv, token=token, shadowed=shadowed))
             if not shadowed:
@@ -348,7 +349,13 @@ def _note_injection(live, client, src, frame, stats):
     # a reply with the right address and ID may find the requester in a state where it can only abort (e.g. while it retransmits
     # a segmented request): still an outcome caused by that peer and that ID
     ent["eligible_kinds"].add("abort")
-    if a["type"] == RA.CACK:
+    if a["type"] == RA.CACK and a.get("seg"):
+        # one segment of an earlier segmented answer that travelled under this very (peer, ID): the requester takes it for the start of
+        # its own answer, and what the peer makes of the segment-acks that follow may complete it with that earlier content
+        ent["eligible"].add(b"?undecodable")
+        for old_token in ent.get("earlier_tokens", ()):
+            ent["eligible"].add(b"R" + old_token)
+    elif a["type"] == RA.CACK:
         try:
             tags, _ = R1.decode_tags(a["data"])
             ent["eligible"].add(bytes(tags[3][3]))
